@@ -1,6 +1,6 @@
 """C08 — reported lines are playable and mate announcements are true: structural clauses C08-PVGUARD,
 C08-PVPUSH, C08-MATEDIST, C08-DEPTH, C08-MATE (DESIGN.md §3)."""
-from facts import (norm, show, walk, strip_refs, deep_strip, is_call_to, callee_name, find_calls, guard_conditions,
+from facts import (decision_paths, norm, show, walk, strip_refs, deep_strip, is_call_to, callee_name, find_calls, guard_conditions,
                    cmp_op, switch_edge_conds, option_guard)
 import sh
 
@@ -28,6 +28,126 @@ def run(fx, rep, tier):
     rule_mate(fx, rep, neg)
     rule_aspwin(fx, rep)
     rule_rootret(fx, rep, neg)
+    rule_mateconv(fx, rep)
+
+
+def int_eval(fx, e, env):
+    """signed-integer value of a closed-form expression (constants, parameters, + - * / with truncation, negation, widening
+    conversions, comparisons as 0/1); `Some(x)` -> ('some', x), `None` -> ('none',); None when outside this fragment"""
+    if not isinstance(e, tuple) or not e:
+        return None
+    k = e[0]
+    if k in ("ref", "deref"):
+        return int_eval(fx, e[1], env)
+    if k == "arg":
+        return env.get(e[1])
+    if k == "const":
+        return int(e[1]) if isinstance(e[1], (int, bool)) else None
+    if k == "constpath":
+        cv = [v for kk, v in fx.consts.items() if norm(kk) == e[1]]
+        return cv[0].get("int") if cv and "int" in cv[0] else None
+    if k == "agg":
+        tag = str(e[1])
+        if tag.endswith("Option::None"):
+            return ("none",)
+        if tag.endswith("Option::Some") and len(e[2]) == 1:
+            v = int_eval(fx, e[2][0], env)
+            return None if v is None else ("some", v)
+        if len(e[2]) == 1:
+            return int_eval(fx, e[2][0], env)      # newtype
+        return None
+    if k == "field" and e[2] == "0":
+        return int_eval(fx, e[1], env)
+    if k == "cast":
+        return int_eval(fx, e[1], env)
+    if k == "unop" and e[1] == "Neg":
+        v = int_eval(fx, e[2], env)
+        return None if v is None else -v
+    if k == "binop":
+        a, b = int_eval(fx, e[2], env), int_eval(fx, e[3], env)
+        if not isinstance(a, int) or not isinstance(b, int):
+            return None
+        op = e[1].replace("WithOverflow", "")
+        if op == "Div":
+            return None if b == 0 else int(a / b)
+        return {"Add": a + b, "Sub": a - b, "Mul": a * b, "Gt": int(a > b), "Lt": int(a < b), "Ge": int(a >= b), "Le": int(a <= b),
+                "Eq": int(a == b), "Ne": int(a != b)}.get(op)
+    if k == "call" and isinstance(e[1], str) and (e[1].endswith("num::from") or e[1].endswith(">::from") or e[1].endswith("::into")) and len(e[2]) == 1:
+        return int_eval(fx, e[2][0], env)
+    return None
+
+
+def fn_eval(fx, name, args):
+    """value of a small loop-free function for concrete integer arguments, through its extracted paths"""
+    b = fx.one(name)
+    env = {i + 1: a for i, a in enumerate(args)}
+    for conds, ret, last in decision_paths(b, 64):
+        if ret is None:
+            continue
+        ok = True
+        for (ce, val) in conds:
+            v = int_eval(fx, ce, env)
+            if not isinstance(v, int):
+                return None
+            if isinstance(val, int):
+                ok = ok and v == val
+            elif isinstance(val, tuple) and val[0] == "otherwise":
+                ok = ok and v not in val[1]
+        if ok:
+            return int_eval(fx, ret, env)
+    return None
+
+
+def rule_mateconv(fx, rep):
+    """The reported "mate N" is derived from the score by Eval::is_mate_in_moves; scores are built by mate_in / mated_in(ply).
+    For a mate delivered p plies from the root (p odd) the announcement must be (p+1)/2, for being mated in p plies (p even)
+    it must be -p/2: then "mate in N" has exactly the matching number of plies. Evaluated on the extracted formulas."""
+    ok = True
+    n = 0
+    bad_ex = None
+    undecided = False
+    try:
+        span = fx.const("player_eval::Eval::MATE").get("int") - fx.const("player_eval::Eval::MATE_THRESHOLD").get("int")
+    except Exception:
+        span = None
+    if not isinstance(span, int) or span < 10:
+        rep.notes.append("C08-MATECONV: MATE / MATE_THRESHOLD constants not found; clause not decided")
+        rep.rule("C08-MATECONV", 0, 0, True, "not decided")
+        return
+    # mates up to (MATE - MATE_THRESHOLD - 1) plies are representable as mate scores by the engine's own threshold
+    for p in range(1, span):
+        if p % 2 == 1:
+            sc = fn_eval(fx, "Eval::mate_in", [p])
+            want = ("some", (p + 1) // 2)
+        else:
+            sc = fn_eval(fx, "Eval::mated_in", [p])
+            want = ("some", -(p // 2))
+        got = fn_eval(fx, "Eval::is_mate_in_moves", [sc]) if isinstance(sc, int) else None
+        if sc is None or got is None:
+            undecided = True
+            break
+        n += 1
+        good = got == want
+        rep.obligation(good)
+        if not good and bad_ex is None:
+            bad_ex = (p, sc, got, want)
+    if undecided:
+        rep.notes.append("C08-MATECONV: the mate score conversions are not closed formulas this rule can evaluate; clause not decided")
+        rep.rule("C08-MATECONV", 0, 0, True, "not decided")
+        return
+    # ordinary scores are not announced as mates
+    for v in (0, 150, -150, 31900, -31900):
+        n += 1
+        good = fn_eval(fx, "Eval::is_mate_in_moves", [v]) == ("none",)
+        rep.obligation(good)
+        if not good and bad_ex is None:
+            bad_ex = ("score", v, fn_eval(fx, "Eval::is_mate_in_moves", [v]), ("none",))
+    if bad_ex is not None:
+        ok = False
+        b = fx.one("Eval::is_mate_in_moves")
+        rep.violation("C08-MATECONV", "C08-MATECONV/distance", f"mate-score conversion: for {'a mate' if bad_ex[0] != 'score' else 'the score'} {bad_ex[0]} {'plies from the root ' if bad_ex[0] != 'score' else ''}(score {bad_ex[1]}) is_mate_in_moves gives {bad_ex[2]}, expected {bad_ex[3]}: "
+                      "the announced mate distance does not match the length of the line", {"fn": b.name, "file": b.file, "line": b.line})
+    rep.rule("C08-MATECONV", n, 60, ok, f"mate_in / mated_in / is_mate_in_moves agree for every ply 1..{span - 1}")
 
 
 def rule_rootret(fx, rep, neg):
@@ -496,6 +616,10 @@ NG = "src/engine/search/negamax.rs"
 ID = "src/engine/search/iterative_deepening.rs"
 PE = "src/engine/eval/player_eval.rs"
 MUTANTS = [
+    {"name": "mate distance announced without rounding up", "expect": "C08-MATECONV",
+     "edits": [("src/engine/eval/player_eval.rs", "            return Some((Self::MATE - self.0 + 1) / 2);", "            return Some((Self::MATE - self.0) / 2);")]},
+    {"name": "being mated announced with the wrong sign", "expect": "C08-MATECONV",
+     "edits": [("src/engine/eval/player_eval.rs", "            return Some((Self::MATED - self.0) / 2);", "            return Some((self.0 - Self::MATED) / 2);")]},
     {"name": "draw-by-rule test also taken at the root", "expect": "C08-ROOTRET",
      "edits": [("src/engine/search/negamax.rs", "    if !is_root\n        && (game.is_repeated_position()", "    if (plies < 200)\n        && (game.is_repeated_position()")]},
     {"name": "mated score built for the next ply", "expect": "C08-MATE/mated-ply",
